@@ -37,6 +37,51 @@ def check(ctx: Ctx) -> None:
     c06_r3(ctx, "C05.R7")
 
 
+def reach_sets(ctx: Ctx) -> Dict[str, str]:
+    """{role attr: local set variable} for the three reachability sets of collect(), found by ROLE: the set whose
+    inserted value derives from `.manifest_list` / `.manifest_path` / `.file_path`."""
+    f = ctx.fn(GC + ".collect")
+    sl = ctx.slicer(f)
+    out: Dict[str, str] = {}
+    for n in ctx.cfg(f).calls():
+        a = n.ast
+        if not (isinstance(a, ast.Call) and isinstance(a.func, ast.Attribute) and a.func.attr in ("add", "update") and a.args
+                and isinstance(a.func.value, ast.Name)):
+            continue
+        # the DIRECT source attribute: nearest attribute read on the chain of the inserted value
+        org = sl.origins(a.args[0], n.id, max_nodes=6)
+        attrs = [x.attr for e in org["exprs"] for x in ast.walk(e) if isinstance(x, ast.Attribute)
+                 and x.attr in ("manifest_list", "manifest_path", "file_path")]
+        direct = [x.attr for x in ast.walk(a.args[0]) if isinstance(x, ast.Attribute) and x.attr in ("manifest_list", "manifest_path", "file_path")]
+        role = direct[0] if direct else None
+        if role is None:
+            # one variable hop: m_path = m.manifest_path ; add(normalize(m_path))
+            for nm in names_in(a.args[0]):
+                for d in ctx.rd(f).reaching(n.id, nm):
+                    dn = ctx.cfg(f).nodes[d]
+                    if isinstance(dn.ast, ast.Assign):
+                        hit = [x.attr for x in ast.walk(dn.ast.value) if isinstance(x, ast.Attribute) and x.attr in ("manifest_list", "manifest_path", "file_path")]
+                        if hit:
+                            role = hit[0]
+        if role and role not in out:
+            out[role] = a.func.value.id
+    missing = {"manifest_list", "manifest_path", "file_path"} - set(out)
+    if missing:
+        raise AnalysisError(f"collect(): no reachability set is fed from {sorted(missing)} - anchors moved")
+    return out
+
+
+def membership_param(ctx: Ctx) -> str:
+    """The parameter of _gc_prefix that the listed path is tested against (`x not in <param>`)."""
+    gp = ctx.fn(GC + "._gc_prefix")
+    params = {p.name for p in gp.params}
+    for b in ctx.cfg(gp).nodes:
+        if b.kind == "branch" and isinstance(b.ast, ast.Compare) and isinstance(b.ast.ops[0], (ast.NotIn, ast.In)) \
+                and isinstance(b.ast.comparators[0], ast.Name) and b.ast.comparators[0].id in params:
+            return b.ast.comparators[0].id
+    raise AnalysisError("membership test against the reachable-set parameter vanished in _gc_prefix")
+
+
 def set_adds(ctx: Ctx, f: FunctionInfo, setname: str) -> List[Node]:
     out = []
     for n in ctx.cfg(f).calls():
@@ -58,8 +103,8 @@ def r1(ctx: Ctx, rid: str = "C05.R1") -> None:
     snap_loops = [l for l in loops if norm_text(l.ast.iter).endswith(".snapshots")]  # type: ignore[union-attr]
     ctx.ob(rid, f, "iterates metadata.snapshots", snap_loops[0] if snap_loops else None, bool(snap_loops),
            "the walk starts from ALL retained snapshots, not only the current one")
-    sets = {"reachable_manifest_lists": "manifest_list", "reachable_manifests": "manifest_path",
-            "reachable_data_files": "file_path"}
+    rs = reach_sets(ctx)
+    sets = {rs["manifest_list"]: "manifest_list", rs["manifest_path"]: "manifest_path", rs["file_path"]: "file_path"}
     for sname, attr in sets.items():
         adds = set_adds(ctx, f, sname)
         ctx.ob(rid, f, f"{sname} is populated", adds[0] if adds else None, bool(adds),
@@ -82,7 +127,7 @@ def r1(ctx: Ctx, rid: str = "C05.R1") -> None:
                    f"inserted value derives from .{attr}; guarding conditions {[b.text[:40] for b in conds]} only test the path; no break"
                    + (f"; filtering condition(s): {[b.text[:60] for b in bad]}" if bad else ""))
     # each reachable set is then iterated to read the next level
-    for sname, reader in (("reachable_manifest_lists", "read_manifest_list_file"), ("reachable_manifests", "read_manifest_file")):
+    for sname, reader in ((rs["manifest_list"], "read_manifest_list_file"), (rs["manifest_path"], "read_manifest_file")):
         lp = [l for l in loops if norm_text(l.ast.iter) == sname]  # type: ignore[union-attr]
         rd = ctx.calls(f, name=reader)
         ok = bool(lp) and bool(rd) and all(any(fr.kind == "loop" and fr.node is lp[0].ast for fr in r.frames) for r in rd)
@@ -96,7 +141,8 @@ def r1_noskip(ctx: Ctx, rid: str) -> None:
     f = ctx.fn(GC + ".collect")
     g = ctx.cfg(f)
     loops = [n for n in g.nodes if n.kind == "loop" and isinstance(n.ast, ast.For)]
-    for sname, reader in (("reachable_manifest_lists", "read_manifest_list_file"), ("reachable_manifests", "read_manifest_file")):
+    rs = reach_sets(ctx)
+    for sname, reader in ((rs["manifest_list"], "read_manifest_list_file"), (rs["manifest_path"], "read_manifest_file")):
         lp = [l for l in loops if norm_text(l.ast.iter) == sname]  # type: ignore[union-attr]
         rd = ctx.calls(f, name=reader)
         if not lp or not rd:
@@ -112,7 +158,7 @@ def r1_noskip(ctx: Ctx, rid: str) -> None:
                "that snapshot's manifests and data files from the reachable set; the sweep then deletes them",
                witness=ctx.path_witness(f, w), text=sname)
         # and each element read is then consumed: the loop over its result feeds the next set
-    for sname in ("reachable_manifests", "reachable_data_files"):
+    for sname in (rs["manifest_path"], rs["file_path"]):
         adds = set_adds(ctx, f, sname)
         for a in adds:
             encl = [fr.node for fr in a.frames if fr.kind == "loop"]
@@ -140,7 +186,7 @@ def r2(ctx: Ctx) -> None:
     ctx.rule("C05.R2", "one normalisation on both sides, depending on the path only: (a) inserted values and the tested key are "
              "results of _normalize_path; (b) PATHPREFIX: a prefix test against a location is separator-terminated", 6)
     f = ctx.fn(GC + ".collect")
-    for sname in ("reachable_manifest_lists", "reachable_manifests", "reachable_data_files"):
+    for sname in reach_sets(ctx).values():
         for a in set_adds(ctx, f, sname):
             arg = a.ast.args[0] if isinstance(a.ast, ast.Call) and a.ast.args else None
             ok = isinstance(arg, ast.Call) and (dotted(arg.func) or "").endswith("_normalize_path")
@@ -148,10 +194,9 @@ def r2(ctx: Ctx) -> None:
                    "the reachable side is normalised by the same function as the listed side")
     gp = ctx.fn(GC + "._gc_prefix")
     g = ctx.cfg(gp)
+    mp = membership_param(ctx)
     mem = [b for b in g.nodes if b.kind == "branch" and isinstance(b.ast, ast.Compare)
-           and isinstance(b.ast.ops[0], (ast.NotIn, ast.In)) and "reachable_set" in b.text]
-    if not mem:
-        raise AnalysisError("membership test against reachable_set vanished in _gc_prefix")
+           and isinstance(b.ast.ops[0], (ast.NotIn, ast.In)) and mp in names_in(b.ast.comparators[0])]
     sl = ctx.slicer(gp)
     for b in mem:
         org = sl.origins(b.ast.left, b.id)  # type: ignore[union-attr]
@@ -212,8 +257,10 @@ def r3(ctx: Ctx, rid: str) -> None:
     dels = ctx.calls(gp, storage="delete_file")
     if not dels:
         raise AnalysisError("no delete sink in _gc_prefix")
-    mem = [b for b in g.nodes if b.kind == "branch" and isinstance(b.ast, ast.Compare) and "reachable_set" in b.text]
-    age = [b for b in g.nodes if b.kind == "branch" and isinstance(b.ast, ast.Compare) and "cutoff" in b.text]
+    mp = membership_param(ctx)
+    mem = [b for b in g.nodes if b.kind == "branch" and isinstance(b.ast, ast.Compare)
+           and isinstance(b.ast.ops[0], (ast.NotIn, ast.In)) and mp in names_in(b.ast.comparators[0])]
+    age = [b for b in g.nodes if b.kind == "branch" and isinstance(b.ast, ast.Compare) and "get_modified_time" in b.text]
     for d in dels:
         ok_mem = False
         for b in mem:
@@ -246,7 +293,9 @@ def r3(ctx: Ctx, rid: str) -> None:
         stat = [n for n in ctx.calls(gp, storage="get_modified_time")]
         ctx.ob(rid, gp, "the file deleted is the file whose age was tested", d,
                bool(stat) and all(norm_text(path_arg(s)) == norm_text(pa) for s in stat), "same path expression in stat and delete")
-    cutoff_defs = [n for n in g.nodes if n.kind == "stmt" and isinstance(n.ast, ast.Assign) and "cutoff" in norm_text(n.ast.targets[0])]
+    cut_names = {nm for b in age for nm in names_in(b.ast) if "." not in nm and nm not in ("self", "file_rel_path")}
+    cutoff_defs = [n for n in g.nodes if n.kind == "stmt" and isinstance(n.ast, ast.Assign)
+                   and any(isinstance(t, ast.Name) and t.id in cut_names for t in n.ast.targets) and "time" in norm_text(n.ast.value)]
     okc = any(isinstance(n.ast.value, ast.BinOp) and isinstance(n.ast.value.op, ast.Sub) and "grace_period" in norm_text(n.ast.value.right)
               and "time" in norm_text(n.ast.value.left) for n in cutoff_defs)
     ctx.ob(rid, gp, "cutoff = now - grace period", cutoff_defs[0] if cutoff_defs else None, okc,
@@ -258,17 +307,20 @@ def r3(ctx: Ctx, rid: str) -> None:
     if len(gcalls) < 2:
         raise AnalysisError("expected two _gc_prefix calls in collect")
     for c in gcalls:
-        arg = kwarg(c.ast, "reachable_set", 1)
+        arg = kwarg(c.ast, mp, 1)
         org = sl.origins(arg, c.id)
         has_prot = any(isinstance(x, ast.Call) and (dotted(x.func) or "").endswith("_load_inflight_protection") for x in org["calls"])
-        has_reach = any(nm.startswith("reachable_") for nm in org["names"])
+        has_reach = bool(set(reach_sets(ctx).values()) & org["names"])
         union = isinstance(arg, ast.BinOp) and isinstance(arg.op, ast.BitOr) or (isinstance(arg, ast.Call) and "union" in norm_text(arg.func))
         ctx.ob(rid, col, "reachable_set argument = reachable ∪ protected", c, has_prot and has_reach and bool(union),
                "in-flight protection and reachability are both applied to this prefix (no intersection / difference)")
     lp = ctx.fn(GC + "._load_inflight_protection")
     lg = ctx.cfg(lp)
     for d in ctx.calls(lp, storage="delete_file"):
-        brs = [b for b in lg.nodes if b.kind == "branch" and isinstance(b.ast, ast.Name) and "age" in b.ast.id]
+        # the freshness flag: a variable assigned from a comparison involving the marker's mtime
+        flag = {t.id for n in lg.nodes if n.kind == "stmt" and isinstance(n.ast, ast.Assign) and "get_modified_time" in norm_text(n.ast.value)
+                for t in n.ast.targets if isinstance(t, ast.Name)}
+        brs = [b for b in lg.nodes if b.kind == "branch" and isinstance(b.ast, ast.Name) and b.ast.id in flag]
         ok = False
         for b in brs:
             fl, t = edge_target(lg, b, "false"), edge_target(lg, b, "true")
